@@ -26,6 +26,12 @@ theorem fact_plugin_shape : Galaxy.Plugin.facts = Facts.good := by decide
 /-- the per-pod key mutex is taken by all six entry points (operations on one pod name are atomic moves) -/
 theorem fact_entry_points_hold_pod_lock : Generated.Plugin.allUnderPodLock = true := by decide
 
+/-- ConfigurePool keeps a stored object for the first pool whose pod subnet AND ranges contain its address (pools may share
+    a pod subnet), so a reload / restart cannot drop or re-home the record of an address of "the other" pool. -/
+theorem pool_lookup_is_subnet_and_ranges (p : Pool) (ip : Nat) : p.has ip = (p.inSubnet ip && inRanges p.ranges ip) := by
+  have : Generated.Plugin.configurePoolMatchesSubnetAndRanges = true := by decide
+  simp [Pool.has, this]
+
 /-- `util.FormatKey` is injective on (namespace, pod name) for non-empty names.  (Structured keys; that the rendered
     string `Key.render` is injective for names without '_' is C11's codec theorem.) -/
 theorem key_injective_on_pod_identity (q1 q2 : Pod) (h1 : WFNames q1) (h2 : WFNames q2) (h : keyOf q1 = keyOf q2) :
